@@ -111,6 +111,8 @@ def make_env(jinja2, axis, loader, autoescape, build_dir=None):
 
 
 def do_render(tmpl, axis, data):
+    import random as _random
+    _random.seed(11)          # the random filter must not make two renders of one template differ
     if axis == "generate":
         return "".join(tmpl.generate(**data))
     if axis == "stream":
@@ -147,7 +149,8 @@ def render_mode(jinja2, mode, templates, main, data, axis="plain", ctx=None):
             env2 = make_env(jinja2, axis, env.loader, env.autoescape, bdir)
             env2.globals.update(ae_on=True)
             out2 = do_render(env2.get_template(main), axis, data)
-            if out2 != out:
+            addr = re.compile(r"0x[0-9a-fA-F]+")      # default object reprs print addresses
+            if addr.sub("0x", out2) != addr.sub("0x", out):
                 return out + "<BYTECODE-CACHE-DIFFERS>" + out2
         return out
     except Exception:
@@ -215,6 +218,15 @@ EXPRS = [
     "([a]|list)|string|replace(b, c)", "{'k': [a]}|tojson", "[a, b]|center(40)", "[a]|indent(width=b)", "[a, b]|trim", "(a, b)|title",
     "[a, b]|truncate(9, true, c)", "[a]|wordwrap(3, true, b)", "{'k': a}|string|urlize", "[m, a]|join", "[a, m]|join", "[m, a, m]|join(c)",
     "[m, b]|join(', ')", "[b, m]|join(', ')", "[m, 1]|join('-')",
+    # every built-in test in an output expression and inside select / reject / selectattr
+    "a is string", "m is string", "m is escaped", "a is escaped", "a is eq(b)", "m is eq(a)", "a is ne(m)", "a is lt(b)", "m is le(a)", "a is gt(m)",
+    "m is ge(m)", "a is sameas(a)", "a is in(m)", "m is in([a, m])", "a is lower", "m is upper", "a is defined", "missing is undefined",
+    "a is none", "a is boolean", "a is integer", "a is float", "a is number", "a is iterable", "m is sequence", "a is mapping",
+    "a is callable", "(a|length) is divisibleby(2)", "(a|length) is even", "(a|length) is odd", "'upper' is filter", "'odd' is test",
+    "a is true", "a is false", "a is equalto(a)", "a is greaterthan(b)", "a is lessthan(b)", "a is not string",
+    "[a, m, 1]|select('string')|join(c)", "[a, m]|reject('escaped')|join(c)", "[a, m]|select('escaped')|join(c)", "[a, b]|select('eq', a)|join(c)",
+    "[a, b]|reject('in', [b])|join(c)", "[a, m]|select('ne', m)|join(c)", "[{'k': a}, {'k': m}]|selectattr('k', 'escaped')|map(attribute='k')|join(c)",
+    "[{'k': a}]|rejectattr('k', 'none')|map(attribute='k')|join(c)", "[a, b]|select('lower')|list", "[a, m]|select('in', m)|first",
     # operators on Markup vs str: % * in comparisons, unary, slicing with data-dependent bounds
     "m % a", "m % (a, b)", "a % m", "m * 2", "2 * m", "a in m", "m in a", "m == a", "m != a", "m < a", "m >= b", "a == m", "(m ~ a) == (a ~ m)",
     "m ~ (a in m)", "m[(a|length) // 2:]", "m[::-1]", "m[::2] ~ b", "(m, a)[0]", "(m if a in b else b) ~ a", "m and a", "a and m", "m or a",
@@ -224,7 +236,7 @@ EXPRS = [
     "m.rsplit('o')|join(b)", "m.rpartition('o')|join(b)", "(m ~ '{k}').format_map({'k': b})", "m.removeprefix(b)", "m.removesuffix(b)",
     "m.unescape()", "m.striptags()", "m.count(a)", "m.find(a)", "m.startswith(a)", "m.capitalize()", "m.__html__()", "m.encode('utf-8')",
     "m.join(a)", "a.join(m)", "m.replace(a, b)", "m.replace('o', m)", "m.split()|first", "m.splitlines(true)|join(b)", "m.center(30, b[:1])",
-    "m.__mod__(a)", "m.__add__(a)", "m.__radd__(a)", "m.__mul__(2)", "m.__getitem__(0)", "m.escape(a)", "m.__class__(a)",
+    "m.__mod__(a)", "m.__add__(a)", "m.__radd__(a)", "m.__mul__(2)", "m.__getitem__(0)", "m.escape(a)",
     "a.format(m)", "a.replace('o', m)", "a.__add__(m)", "(a ~ '%s') % m", "(a ~ '{}').format(m)", "a|format(m)",
     "a|slice(2)|list", "a|e|truncate(5)", "a|e|center(20)", "a|e|indent(width=b)", "a|e|wordwrap(4)|replace(b, c)",
 ]
@@ -369,6 +381,22 @@ def run(ctx):
             ctx.reject(case, of, "C15:filter-row:" + name)
         else:
             ctx.validated()
+    # every built-in TEST: the answer is a bool whatever the (plain / Markup / carrier) arguments are, so no
+    # argument text can reach the output through a test (tests feed if / select / reject only by their truth value)
+    from jinja2.tests import TESTS
+    for name, spec, taints, carrier in R.test_cases(jinja2):
+        ctx.case(key=("test", name, taints, carrier))
+        ctx.count("k_tests")
+        if spec is None:
+            ctx.model_mismatch("K-tests: test missing from the model's table", {"test": name}, "no row", "registered in jinja2.tests.TESTS", None)
+            continue
+        got = R.observe_test(jinja2, name, spec, taints, carrier, env, tctx)
+        if got[0] == "other":
+            ctx.reject({"kind": "test", "test": name, "taints": list(taints), "carrier": carrier},
+                       f"test {name} returned a non-bool value {got[1]!r}", "C15:test-row:" + name)
+        else:
+            ctx.validated()
+    ctx.extra["tests_in_running_jinja2"] = len(TESTS)
     for name in sorted(set(R.SPECS) - set(FILTERS)):
         ctx.notes.append(f"row table has a filter the running jinja2 does not register: {name}")
     # regenerated obligation: the OBSERVED table is safe (decided in Coq), opt-out rows excluded
@@ -469,7 +497,7 @@ def run(ctx):
 
     # ---------------- O-T: programs of T inside the hypotheses, three modes
     progs = []
-    for i in range(ctx.size(700, 7000)):
+    for i in range(ctx.size(400, 7000)):
         g = L.LGen(ctx.rng, neutral=False, safe_ok=False, text=("safe",), ae="1f", depth=3, marker=MARK)
         t = g.program()
         d, dl = g.data()
@@ -492,7 +520,7 @@ def run(ctx):
                 ctx.reject({"kind": "set", "mode": mode, "templates": {"main.html": src}, "data": data}, w, "C15:T-program")
 
     # ---------------- O-sets: shared generator, all features
-    for idx in range(ctx.size(500, 5000)):
+    for idx in range(ctx.size(300, 5000)):
         g = TGen(ctx.rng, meta=True, depth=3)
         ts, main = g.template_set()
         data = g.data()
@@ -509,7 +537,7 @@ def run(ctx):
     n_expr = 0
     for e in EXPRS:
         for wi, wsrc in enumerate(WRAPPERS):
-            if ctx.tier == "quick" and ctx.rng.random() > 0.34 and wi != 0:
+            if ctx.tier == "quick" and ctx.rng.random() > 0.2 and wi != 0:
                 continue
             if ("{%% filter" in wsrc or "set r |" in wsrc) and any(x in e for x in ("urlize", "xmlattr", "tojson")):
                 continue      # a filter block would rewrite the documented markup itself
